@@ -12,7 +12,8 @@ from __future__ import annotations
 import ast
 
 from .absbase import FinamInterp, Logger, Ref
-from .interp import Closure, Obj, Raised, Sym
+from .interp import Closure, Obj, Raised, Sym, Undecided
+from .loader import AnalysisError
 
 
 class SchedInterp(FinamInterp):
@@ -67,9 +68,41 @@ class Topo:
         self.comps[name] = c
         return c
 
+    # ----- the slots are built by the real constructors and linked by the real chain(): whatever private state the
+    # classes keep (target lists, static flags, source references) is there under its real name, so properties that a
+    # refactoring starts to read (has_targets, ...) find what the real code would find.  The public values the model itself
+    # reads (targets, source, is_static, name) are mirrored as plain fields.
+    def _real(self, o, params):
+        from .absbase import FinamInterp, seed_from_init
+        try:
+            seed_from_init(FinamInterp(self.repo), o.cls, o, params)
+            o.fields.setdefault("logger", Logger(label="logger"))
+            o.fields.setdefault("logger_name", o.label)
+        except (AnalysisError, Undecided, Raised):
+            pass
+
+    def _real_link(self, src, tgt):
+        from .absbase import FinamInterp
+        if src is None:
+            return
+        f = self.repo.resolve(src.cls, "chain", "method")
+        if f is None:
+            return
+        keep = {k: tgt.fields.pop(k) for k in ("source",) if k in tgt.fields}
+        keep_src = {k: src.fields.pop(k) for k in ("targets",) if k in src.fields}
+        try:
+            it = FinamInterp(self.repo)
+            it.run(f, [tgt], self_obj=src)
+        except (AnalysisError, Undecided, Raised, KeyError):
+            pass
+        finally:
+            tgt.fields.update(keep)
+            src.fields.update(keep_src)
+
     def output(self, comp, name="out", static=False, pull=False):
         cls = self.repo.cls("CallbackOutput" if pull else "Output")
         o = Obj(cls=cls, label=f"{comp.label}.{name}")
+        self._real(o, {"name": name, "static": static, "info": None, "callback": Sym("callback")})
         o.fields.update(name=name, is_static=static, time=Sym("T", o.label), targets=[], _static=static)
         comp.fields["outputs"][name] = o
         self.outputs[o.label] = o
@@ -93,17 +126,21 @@ class Topo:
             if self.repo.is_subclass(cls, self.repo.cls("ITimeDelayAdapter")):
                 a.fields["_dname"] = f"d{self._n_delay}"
                 self._n_delay += 1
+            self._real(a, {})
             a.fields.update(source=src, targets=[], name=a.label, is_static=False, time=None)
             if src is not None:
                 src.fields["targets"].append(a)
+                self._real_link(src, a)
             elems.append(a)
             src = a
         if comp is None:
             return elems
         inp = Obj(cls=self.repo.cls(sink), label=f"{comp.label}.{in_name}")
+        self._real(inp, {"name": in_name, "static": static_in, "info": None, "callback": Sym("callback")})
         inp.fields.update(source=src, name=in_name, is_static=static_in, _static=static_in)
         if src is not None:
             src.fields["targets"].append(inp)
+            self._real_link(src, inp)
         comp.fields["inputs"][in_name] = inp
         self.links.append((out, elems, comp, inp))
         return elems
